@@ -830,7 +830,7 @@ func HcTermAtom(term string, eq bool) Atom {
 	if eq {
 		k = EQ
 	}
-	return Atom{k, Lin{Coef: map[string]int64{term: 1}}}
+	return Atom{Kind: k, L: Lin{Coef: map[string]int64{term: 1}}}
 }
 
 // HcSends selects channel sends (plain or as a select case) on the channel
